@@ -18,8 +18,12 @@ structure PR (a r : Raft) : Prop where
     x ∈ a.msgs ∨ QSnap r.msgs ∨ x.index ≤ r.raftLog.lastIndex
   qr : ∀ x ∈ r.msgs, x.msgType = .msgReadIndexResp → x ∈ a.msgs ∨ x.index ≤ r.raftLog.committed
   sn : ∀ x ∈ a.msgs, x.msgType = .msgSnapshot → x ∈ r.msgs
+  /-- every new `MsgAppend` is anchored at or above the snapshot point the log had when the call
+  started (or the queue is poisoned) -/
+  qf : ∀ x ∈ r.msgs, x.msgType = .msgAppend →
+    x ∈ a.msgs ∨ QSnap r.msgs ∨ a.raftLog.firstIndex ≤ x.index + 1
 
-theorem PW.pr {a r : Raft} (h : PW a r) : PR a r := ⟨h.po, h.rd, h.qa, h.qr, h.sn⟩
+theorem PW.pr {a r : Raft} (h : PW a r) : PR a r := ⟨h.po, h.rd, h.qa, h.qr, h.sn, h.qf⟩
 
 /-- nothing of the relation's message types has been queued since `a`, and no queued `MsgSnapshot` is
 lost -/
@@ -47,7 +51,8 @@ theorem NF.send {a r r' : Raft} {m : Message} (h : NF a r) (hs : r.send m = .ok 
 theorem NF.pr {a r : Raft} (h : NF a r) (hs : r.state ≠ .leader) : PR a r :=
   ⟨fun c => absurd c hs, fun c => absurd c hs,
    fun x hx hty => .inl (h.old x hx (by rw [hty]; rfl)),
-   fun x hx hty => .inl (h.old x hx (by rw [hty]; rfl)), h.sn⟩
+   fun x hx hty => .inl (h.old x hx (by rw [hty]; rfl)), h.sn,
+   fun x hx hty => .inl (h.old x hx (by rw [hty]; rfl))⟩
 
 /-! ### elections -/
 
